@@ -37,6 +37,8 @@ type verifDatagram struct {
 	// pipeline the datagram goes to; empty = the request's Proto (traffic on another protocol's pipeline runs
 	// alongside, with workers of its own)
 	Proto string `json:"proto,omitempty"`
+	// PauseMS > 0: the injector waits this long before it hands the datagram over (an exporter that has been quiet)
+	PauseMS int `json:"pause_ms,omitempty"`
 }
 
 type verifRequest struct {
@@ -301,6 +303,9 @@ func verifPipeline(req *verifRequest) (resp verifResponse) {
 			if err != nil {
 				resp.Error = err.Error()
 				return
+			}
+			if d.PauseMS > 0 && d.PauseMS <= 10000 {
+				time.Sleep(time.Duration(d.PauseMS) * time.Millisecond)
 			}
 			name := d.Proto
 			if name == "" {
